@@ -47,16 +47,18 @@ var selTables = map[string]map[string]map[string]string{
 		"sync":                  {"Mutex": "ssync", "RWMutex": "ssync", "Once": "ssync", "WaitGroup": "ssync", "Locker": "ssync"},
 		"os":                    {"NewFile": "sinot", "File": "sinot"},
 		"golang.org/x/sys/unix": {"InotifyInit1": "sinot", "InotifyAddWatch": "sinot", "InotifyRmWatch": "sinot"},
-		"time":                  {"Sleep": "ssim"},
+		"time":                  {"Sleep": "ssim", "After": "ssim", "NewTimer": "ssim", "AfterFunc": "ssim", "Timer": "ssim"},
 		"runtime":               {"Gosched": "ssim"},
+		"sync/atomic":           {"*": "satomic"},
 	},
 	"kqueue": {
 		"sync":                                  {"Mutex": "ssync", "RWMutex": "ssync", "Once": "ssync", "WaitGroup": "ssync", "Locker": "ssync"},
 		"os":                                    {"Lstat": "skq", "ReadDir": "skq", "Readlink": "skq", "Stat": "skq"},
 		"golang.org/x/sys/unix":                 {"*": "skq"},
-		"time":                                  {"Sleep": "ssim"},
+		"time":                                  {"Sleep": "ssim", "After": "ssim", "NewTimer": "ssim", "AfterFunc": "ssim", "Timer": "ssim"},
 		"runtime":                               {"Gosched": "ssim", "GOOS": "skq"},
 		"github.com/fsnotify/fsnotify/internal": {"*": "skq"},
+		"sync/atomic":                           {"*": "satomic"},
 	},
 }
 
@@ -66,10 +68,10 @@ var strict = map[string]bool{"sync": true, "sync/atomic": true}
 
 // symbols that would introduce un-simulated nondeterminism
 var forbidden = map[string]map[string]bool{
-	"time": {"After": true, "NewTimer": true, "NewTicker": true, "Tick": true, "AfterFunc": true},
+	"time": {"NewTicker": true, "Tick": true},
 }
 
-var simPaths = map[string]string{"ssim": "verifsim/ssim", "ssync": "verifsim/ssync", "sinot": "verifsim/sinot", "skq": "verifsim/skq"}
+var simPaths = map[string]string{"ssim": "verifsim/ssim", "ssync": "verifsim/ssync", "sinot": "verifsim/sinot", "skq": "verifsim/skq", "satomic": "verifsim/satomic"}
 
 func (r *rw) sim(pkg, name string) ast.Expr {
 	r.need[pkg] = true
